@@ -167,10 +167,15 @@ def run(prop, tier, seed, known):
                            lambda r: None if isinstance(r, tuple) and len(r[0]) == 0 and list(r[1]) == [] else 'got %r' % (r,))
                 for kind, src in sources(text):
                     expect('load_intervals of a file without data rows (%s)' % kind, lambda: IO.load_intervals(src),
-                           lambda r: None if isinstance(r, np.ndarray) and r.size == 0 else 'got %r' % (r,))
+                           lambda r: None if isinstance(r, np.ndarray) and r.shape == (0, 2) else 'got %r (an empty interval array has shape (0, 2))' % (r,))
                 for kind, src in sources(text):
                     expect('load_labeled_intervals of a file without data rows (%s)' % kind, lambda: IO.load_labeled_intervals(src),
-                           lambda r: None if isinstance(r, tuple) and len(r[0]) == 0 and list(r[1]) == [] else 'got %r' % (r,))
+                           lambda r: None if isinstance(r, tuple) and isinstance(r[0], np.ndarray) and r[0].shape == (0, 2) and list(r[1]) == []
+                           else 'got %r (an empty interval array has shape (0, 2))' % (r,))
+                for kind, src in sources(text):
+                    expect('load_valued_intervals of a file without data rows (%s)' % kind, lambda: IO.load_valued_intervals(src),
+                           lambda r: None if isinstance(r, tuple) and isinstance(r[0], np.ndarray) and r[0].shape == (0, 2) and len(r[1]) == 0
+                           else 'got %r (an empty interval array has shape (0, 2))' % (r,))
                 for kind, src in sources(text):
                     expect('load_time_series of a file without data rows (%s)' % kind, lambda: IO.load_time_series(src),
                            lambda r: None if isinstance(r, tuple) and len(r[0]) == 0 and len(r[1]) == 0 else 'got %r' % (r,))
